@@ -6,9 +6,11 @@ pub mod c02;
 pub mod c03;
 pub mod c05;
 pub mod c06;
+pub mod c07;
 pub mod c04;
 pub mod c08;
 pub mod c09;
+pub mod c10;
 pub mod c11;
 pub mod c13;
 pub mod c14;
@@ -37,6 +39,12 @@ pub fn registry() -> Vec<(&'static str, &'static str, MonFn)> {
         ("c14_aborts", "C14", c14::aborts as MonFn),
         ("c11_exh", "C11", c11::exhaustive as MonFn),
         ("c11_rand", "C11", c11::random as MonFn),
+        ("c07_sched_rand", "C07", c07::sched_random as MonFn),
+        ("c07_sched_dfs", "C07", c07::sched_dfs as MonFn),
+        ("c07_stress", "C07", c07::stress as MonFn),
+        ("c07_tiny", "C07", c07::tiny as MonFn),
+        ("c10_scalar", "C10", c10::scalar as MonFn),
+        ("c10_dd", "C10", c10::dd as MonFn),
         ("c02_pairs", "C02", c02::pairs as MonFn),
     ]
 }
